@@ -356,9 +356,65 @@ class TPViews(CalOp):
             return "views of %r in %s are %r, definition says %r" % (date, m, out, want)
 
 
+class SpecQ(Op):
+    """The harness's oracle (harness/oracle.py, a Python transcription of IsoDT/Spec/Calendar.lean) against
+    the Lean Spec itself: the "implementation" here is the oracle, the "model" is the specification the
+    theorems are stated over.  A disagreement means the checks' oracle no longer says what the theorems
+    are about."""
+    prop = PROP
+    name = "specq"
+
+    FNS = {
+        "leap": (1, lambda m, y: int(oracle.leap(m, y))),
+        "monthlen": (2, oracle.month_len), "dbm": (2, oracle.dbm), "yearlen": (1, oracle.year_len),
+        "dby": (1, oracle.dby), "dnord": (2, oracle.day_num_ord), "dncal": (3, oracle.day_num_cal),
+        "weekday": (1, oracle.weekday), "wys": (1, oracle.week_year_start), "dnweek": (3, oracle.day_num_week),
+        "wiy": (1, oracle.weeks_in_year),
+        "vcal": (3, lambda m, y, mo, d: int(oracle.valid_cal(m, y, mo, d))),
+        "vord": (2, lambda m, y, d: int(oracle.valid_ord(m, y, d))),
+        "vweek": (3, lambda m, y, w, d: int(oracle.valid_week(m, y, w, d))),
+    }
+
+    def gen(self, rng, tier, boost):
+        import tpcommon as T
+        n = (1500 if tier == "quick" else 40000) * boost
+        if getattr(self, "shard", None):
+            n = n // self.shard[1] + 1
+        names = sorted(self.FNS)
+        for _ in range(n):
+            m = gens.mode(rng)
+            fn = rng.choice(names)
+            y = rng.choice([0, 1, -1, 4, 100, 400, -400, 1999, 2000, 2001, 2004, 2100, 9999, 10000,
+                            rng.randint(-100000, 100000)])
+            small = [rng.choice([0, 1, 2, 12, 13, 28, 29, 30, 31, 32, 52, 53, 54, 59, 60, 61, 365, 366, 367, -1,
+                                 rng.randint(-400, 400)]) for _ in range(2)]
+            if fn == "weekday":
+                args = (rng.randint(-10 ** 8, 10 ** 8),)
+            else:
+                args = ((y,) + tuple(small))[:self.FNS[fn][0]]
+            yield (m, fn) + args
+        for _ in range(n // 4):
+            m = gens.mode(rng)
+            t = T.gen_tp(rng, m)
+            yield (m, "inst", "cow".index(t[0])) + tuple(t[1:])
+
+    def line(self, a):
+        return "spec " + " ".join(str(x) for x in a)
+
+    def impl(self, a):
+        import tpcommon as T
+        m, fn = a[0], a[1]
+        if fn == "inst":
+            return str(T.inst(m, ("cow"[a[2]],) + tuple(a[3:])))
+        return str(self.FNS[fn][1](m, *a[2:]))
+
+    def label(self, a):
+        return "specq/" + a[1]
+
+
 def ops():
     return [Leap(), DaysInYear(), DaysInMonth(), DaysInMonthFlag(), Range(), WeekStart(),
             OrdWeekStart(), WeeksInYear(),
             _conv("c2o", "c", "o")(), _conv("o2c", "o", "c")(), _conv("w2c", "w", "c")(),
             _conv("c2w", "c", "w")(), _conv("w2o", "w", "o")(), _conv("o2w", "o", "w")(),
-            TPViews()]
+            TPViews(), SpecQ()]
